@@ -14,6 +14,28 @@ from smt import R
 from checks.common import replay_identity
 
 
+def replay_path_kernel(run, args, key, check):
+    """replay for kernels whose outputs live under outputs[key].paths[0].result: the real
+    build is run at the model's input values; `check(inputs, outputs)` returns True when
+    the real outputs violate the definition"""
+    def rp(model):
+        from checks.common import real_at
+        env = {}
+        for k_, v in model.items():
+            if k_.startswith("v_"):
+                env[k_[2:]] = "%064x" % (v % R)
+        rb = real_at(["kernels"] + [str(a) for a in args], env, run.seed)
+        p0 = rb["outputs"][key]["paths"][0]
+        ins = {k_: int(v, 16) for k_, v in rb["env"].items()}
+        if p0["panic"] is not None:
+            return True, {"env": env, "real": "PANIC"}
+        res = p0["result"]
+        outs = [int(x, 16) for x in res] if isinstance(res, list) else [int(res, 16)]
+        bad = check(ins, outs)
+        return bad, {"env": env, "driver": ["kernels"] + [str(a) for a in args], "real_outputs": [hex(o) for o in outs]}
+    return rp
+
+
 def load(run, args):
     sb = fw.run_driver(fw.SYM_BIN, ["kernels"] + [str(a) for a in args], run.seed)
     rb = fw.run_driver(fw.REAL_BIN, ["kernels"] + [str(a) for a in args], run.seed)
@@ -199,14 +221,28 @@ def batch_inv_checks(run, maxlen):
                           get_model=False)
                 continue
             res = [nodes[i] for i in p["result"]]
+
+            def bad_inverse(ins, outs, ln=ln):
+                for i in range(ln):
+                    xi = ins.get(f"x{i}", 0) % R
+                    want = pow(xi, R - 2, R) if xi else 0
+                    if i >= len(outs) or outs[i] != want:
+                        return True
+                return False
+            rp = replay_path_kernel(run, ["batch_inversion", ln], "batch_inversion", bad_inverse)
+            # zero pattern of this path, forced in the replay environment
             for i in range(ln):
                 if f"x{i}" in sub:
                     # zero stays zero
                     r_ = xe.subst(ctx, [res[i]], sub)[0]
-                    run.identity(f"{tag}/zero{i}", r_, ctx.const(0))
+                    o = run.identity(f"{tag}/zero{i}", r_, ctx.const(0), replay=rp)
                 else:
                     r_, xi = xe.subst(ctx, [res[i], x[i]], sub)
-                    run.identity(f"{tag}/inv{i}", r_ * xi, ctx.const(1))
+                    o = run.identity(f"{tag}/inv{i}", r_ * xi, ctx.const(1), replay=rp)
+                # the replay must stay on this path: pin the zero entries
+                o.asserts = [f"(= {smt.vname(n_)} 0)" for n_ in sub if any(n_ == f"x{j}" for j in range(ln))] + o.asserts
+                o.lines = [f"(declare-const {smt.vname(n_)} Int)" for n_ in sub
+                           if f"(declare-const {smt.vname(n_)} Int)" not in o.lines] + o.lines
         run.extra["batch_inversion_paths"] = run.extra.get("batch_inversion_paths", 0) + len(P["paths"])
     run.add_functions(["util::batch_inversion"])
 
